@@ -481,6 +481,7 @@ def run(rep: Report, tier: str) -> None:
 
     rj = rep.rule("C13.j", "'k/n' labels count the fractions of the window: the numbering tables are per copy (rebound, not cleared in place) and filled up to the copy's to-date", floor=4)
     _c10.check_per_copy_state(rep, rj)
+    _c10.check_numbering_from_history_start(rep, rj)
     # the Account Balances table shows the replayed balances: the replay's own obligations (flows per class, identity final = acquired + received - sent,
     # one line per account, time order up to the to-date) are C07's; they are restated here because the table's figures are only as right as the replay
     from . import c07
